@@ -42,13 +42,16 @@
     REFUTED ON THE MODEL without the side conditions (RefutedWitnesses*.v; open findings F4b, F7b):
     [C09_order_dependence_F4b_refuted] -- collision_free false: two permutation schedules with different verdicts (width 4)
     and with different files (width 8); [C09_order_dependence_F7b_refuted] -- collision_free but not clean: accepted under
-    one schedule, an error under another. *)
+    one schedule, an error under another; [C09_order_dependence_F25_refuted] -- a field naming a generated table
+    of a deferred owner: accepted under one schedule, the no-progress error under another. *)
 From Coq Require Import List Bool Permutation NArith String.
 From PyxisModel Require Import Base Grammar SemTypes Registry Sem ScopeLemmas Confluence WholeBuild Monotone
      OrderIndep OutputIndep Emit Examples.
 Import ListNotations.
 
 From PyxisModel Require RefutedInputs RefutedWitnessesOrder RefutedWitnessesEmit RefutedWitnessesFn.
+
+From PyxisModel Require RefutedWitnessesF25.
 
 Theorem C09_order_independent_abstract :
   forall (K V : Type) (eqb : K -> K -> bool), (forall a b, reflect (a = b) (eqb a b)) ->
@@ -166,3 +169,21 @@ Theorem C09_order_dependence_F7b_refuted :
         (pyxis_resolve (hook_schedule ks2) 4 RefutedInputs.f7b_mods).
 Proof. exact RefutedWitnessesOrder.C09_order_dependence_F7b_refuted. Qed.
 Print Assumptions C09_order_dependence_F7b_refuted.
+
+Theorem C09_order_dependence_F25_refuted :
+  exists
+      (ks1 ks2 : list N) (st0 st1 : sstate) (files1 : list (string * Sexp.sexp)) 
+    (stuck : list path),
+      (forall l : list path, Permutation (hook_schedule ks1 l) l) /\
+      (forall l : list path, Permutation (hook_schedule ks2 l) l) /\
+      input_state 4 RefutedWitnessesF25.f25_mods = Ok st0 /\
+      collision_free (st_reg st0) /\
+      clean_stateb st0 = false /\
+      pyxis_resolve (hook_schedule ks1) 4 RefutedWitnessesF25.f25_mods = BOk st1 /\
+      write_all st1 = Ok files1 /\
+      pyxis_resolve (hook_schedule ks2) 4 RefutedWitnessesF25.f25_mods = BNoProgress stuck /\
+      ~
+      same_build st0 (pyxis_resolve (hook_schedule ks1) 4 RefutedWitnessesF25.f25_mods)
+        (pyxis_resolve (hook_schedule ks2) 4 RefutedWitnessesF25.f25_mods).
+Proof. exact RefutedWitnessesF25.C09_order_dependence_F25_refuted. Qed.
+Print Assumptions C09_order_dependence_F25_refuted.
